@@ -597,9 +597,22 @@ def wrapper_worker(part, job):
 
             zs, pos = SURF_MOLS[arg]
             m = Molecule([Element.from_atomic_number(int(z)) for z in zs], np.array(pos, dtype=float))
-            meshes = [m.promolecule_density_isosurface(separation=0.5)]
-            inside = [np.array(pos, dtype=float)]
-            outside = [np.zeros((0, 3))]
+            # the same surface with every documented vertex colouring (the colour is computed FROM the vertices, it must not move them)
+            colors = [None, "d_i", "d_norm_i", "d_e", "d_norm_e", "esp"]
+            meshes, inside, outside = [], [], []
+            for col in colors:
+                try:
+                    meshes.append(m.promolecule_density_isosurface(separation=0.5, **({"color": col} if col else {})))
+                except KeyError:
+                    continue        # a colouring this kind of surface does not offer
+                inside.append(np.array(pos, dtype=float))
+                outside.append(np.zeros((0, 3)))
+            if len(meshes) >= 2:
+                v0 = np.asarray(meshes[0].vertices)
+                for tm_ in meshes[1:]:
+                    if np.asarray(tm_.vertices).shape != v0.shape or not (np.abs(np.asarray(tm_.vertices) - v0).max() <= 1e-9):
+                        part.fail("wrapper-colour-moves-surface", "the promolecule surface of %s has other vertices when another vertex colouring is asked for" % arg, case)
+                        break
         else:
             from chmpy.crystal import Crystal
 
